@@ -3,9 +3,14 @@
 The multi-queue family (SP, RR, WRR, DRR) is replayed through the MultiQueueServer LTS, the stamp family (WFQ,
 VirtualClock) through the StampServer LTS; each family brings its own direct oracles.  A third, oracle-only family
 (harness/c12_frac.py) restates the counter / Monitor clause on packet sizes that are not whole numbers, for all six."""
-from harness import c12_mq, c12_stamp, c12_frac
+from harness import c12_mq, c12_stamp, c12_frac, dynsched
 
 ASSUMPTIONS = sorted(set(getattr(c12_mq, 'ASSUMPTIONS', []) + getattr(c12_stamp, 'ASSUMPTIONS', []) + c12_frac.ASSUMPTIONS))
+ASSUMPTIONS.append('reconfiguration while running / re-entrant next hop (oracle-only family, harness/dynsched.py, all six schedulers): `rate` is reassigned by another '
+                   'process between packets - "for exactly 8*size/rate" is read with the rate the scheduler has when the transmission starts (a transmission that '
+                   'starts in the very instant of a change is not judged); the next hop hands packets straight back to put() from inside its own put(), or rewrites '
+                   'flow_id / size of the packet it was handed - "waiting or in transmission" ends when the packet is handed to out.put(). Kept away from (findings on '
+                   'the pinned tree, see dynsched.EXCLUDED): WFQ with a re-labelling next hop, DRR with a re-sizing next hop')
 TRUSTED_EXTRA = sorted(set(getattr(c12_mq, 'TRUSTED_EXTRA', []) + getattr(c12_stamp, 'TRUSTED_EXTRA', []))) + [
     'py2lean/elem.py + elements.py (typed AST-subset translator): the argument of the one `yield self.env.timeout(...)` of Scheduler.send_packet; '
     'the bridge theorems C12.send_delay_generated_eq_model / mq_send_delay_generated_eq_model tie it to the txTime of the two scheduler LTSs']
@@ -39,6 +44,9 @@ def run(ctx):
     with multiprocessing.get_context('fork').Pool(2) as pool:
         ra, rb = pool.apply_async(_family, (0,)), pool.apply_async(_family, (1,))
         f = c12_frac.run_family(ctx)        # oracle-only: counters and Monitor samples on non-integer packet sizes (outside the Lean replay)
+        # oracle-only: the rate reassigned while the scheduler runs (rate-exact with the rate at the start of the transmission), next hops that
+        # call back into put() or rewrite the packet (one at a time, never idle with a backlog, exactly once, FIFO, counters)
+        g = dynsched.run_family(ctx, 'C12', dynsched.KINDS, ['rate', 'rate', 'reflect', 'relabel', 'resize'], ['service', 'conserve'], 360, 7200)
         a, b = ra.get(), rb.get()
     cov = {}
     ca, cb = a.get('coverage', {}), b.get('coverage', {})
@@ -51,6 +59,7 @@ def run(ctx):
     cov.update({'translated': _PREP.get('translated', []), 'generated_files_rewritten': _PREP.get('rewritten', []),
                 'generated_diff_vs_pinned': _PREP.get('diff_vs_pinned', []), 'bridge_theorems': BRIDGES, 'hand_modelled': HAND_MODELLED})
     cov['fractional_size_family_oracle_only'] = f.get('coverage', {})      # counted apart: not part of `evaluations` / the correspondence
+    cov['reconfigured_and_reentrant_family_oracle_only'] = g.get('coverage', {})      # counted apart as well
     return {'coverage': cov,
             'disagreements': a.get('disagreements', []) + b.get('disagreements', []),
-            'oracle_failures': a.get('oracle_failures', []) + b.get('oracle_failures', []) + f.get('oracle_failures', [])}
+            'oracle_failures': a.get('oracle_failures', []) + b.get('oracle_failures', []) + f.get('oracle_failures', []) + g.get('oracle_failures', [])}
